@@ -95,6 +95,8 @@ def run_image(arg):
                 for i in range(150):
                     tree[b"many/%03d" % i] = Node("file", 0o644, data=[("rand", i, 30 + i)])
                 tree[b"many"] = Node("dir", 0o755)
+                tree[b"holes"] = Node("file", 0o644, data=[("rep", b"head", bs), ("zero", 2 * bs), ("rep", b"mid", bs), ("zero", bs), ("rep", b"tail", 100)])
+                tree[b"hole-only"] = Node("file", 0o644, data=[("zero", 3 * bs)])
                 root = os.path.join(work, "in")
                 gentree.materialise_dir(tree, root)
                 res = core.run_tool([B["gensquashfs"], "-q", "-c", comp, "-b", str(bs), "-x", "-k", "-D", root, ip], timeout=300)
